@@ -543,7 +543,6 @@ var narrowingTable = map[string]string{
 	"(*pogreb.DB).pickForCompaction:uint32(pogreb.file.size)":         "segment size is bounded by maxSegmentSize (uint32) through the guard in writeRecord",
 	"(*pogreb.datalog).del:uint32(len(pogreb.encodeDeleteRecord()))":  "delete record is 10+K bytes, K <= 65535",
 	"(*pogreb.datalog).writeRecord:uint32((*pogreb.file).append#0)":   "guarded: the append offset is < maxSegmentSize (uint32) by the size test at the top of writeRecord",
-	"(*pogreb.datalog).nextWritableSegmentID:uint16(loopindex)":       "range index over [maxSegments]*segment with maxSegments = MaxInt16",
 	"pogreb.encodeRecord:uint32(len(param:[]byte)+len(param:[]byte))": "callers bound key (<=65535) and value (<2^31) lengths: Put's checks; delete records carry no value; recovery/compaction re-encode nothing",
 	"pogreb.encodeRecord:uint16(len(param:[]byte))":                   "see above: key length bounded by Put / by the stored key matched in Delete",
 	"pogreb.encodeRecord:uint32(len(param:[]byte))":                   "see above: value length bounded by Put",
@@ -597,6 +596,17 @@ func ruleC16Narrowing(r *Run, p *Program, rule string) {
 			// full key comparison that C01/C16.match-equal demands of every callback
 			if typeName(cv.Type()) == "uint16" && strings.HasPrefix(canonSrc(cv.X), "len(") && onlyComparedWithKeySize(cv, 0) {
 				r.ok(rule, key, p.Pos(cv.Pos()), "comparison idiom in a key callback: a truncated length can only cause a false length match, rejected by the full key comparison", true)
+				return
+			}
+			// a loop index bounded by a constant that fits the target type (range over a fixed-size array)
+			if canonSrc(cv.X) == "loopindex" && tb < 63 && controlledBy(f, cv, func(c *Cond) bool {
+				if c.X == nil || !c.Pos || c.Op != token.LSS || c.X != cv.X {
+					return false
+				}
+				k, isk := constInt(c.Y)
+				return isk && k >= 0 && k <= int64(1)<<uint(tb)
+			}) {
+				r.ok(rule, key, p.Pos(cv.Pos()), "the converted value is a loop index bounded by a constant that fits "+typeName(cv.Type()), true)
 				return
 			}
 			// int -> int64 style conversions are widening on every platform; uint32(int) etc. need a reason
@@ -734,6 +744,31 @@ func ruleC16Reject(r *Run, p *Program, rule string) {
 
 // ---------- C17 ----------
 
+// sourcesThroughMax is sources(v) that also looks through max(a, b): the builtin, or a function proved to return the
+// larger of its two arguments.
+func sourcesThroughMax(v ssa.Value) []ssa.Value {
+	var out []ssa.Value
+	for _, s := range sources(v) {
+		out = append(out, s)
+		c, ok := strip(s).(*ssa.Call)
+		if !ok {
+			continue
+		}
+		isMax := false
+		if b, ok := c.Call.Value.(*ssa.Builtin); ok && b.Name() == "max" {
+			isMax = true
+		} else if g := c.Call.StaticCallee(); g != nil && isMaxFunc(g) {
+			isMax = true
+		}
+		if isMax {
+			for _, a := range c.Call.Args {
+				out = append(out, sources(a)...)
+			}
+		}
+	}
+	return out
+}
+
 func ruleC17(r *Run, p *Program, rule string) {
 	// size bookkeeping of osMMapFile and memFile
 	type impl struct {
@@ -761,10 +796,7 @@ func ruleC17(r *Run, p *Program, rule string) {
 			}
 			r.check(stores > 0, rule+".size-bookkeeping", key+":updates-size", p.Pos(f.Pos()), key+" maintains the logical file size", key+" changes the file length without maintaining "+im.sizeField+": Slice bounds and later reads disagree with the real file (reads through the mapping differ from plain reads)")
 			if im.needRemap {
-				okv := mustCallOnSuccess(f, func(in ssa.Instruction) bool {
-					c, ok := in.(*ssa.Call)
-					return ok && calleeKey(&c.Call) == "(*fs.osMMapFile).mremap"
-				})
+				okv := mustCallOnSuccessDeep(f, func(c *ssa.Call) bool { return calleeKey(&c.Call) == "(*fs.osMMapFile).mremap" }, 0)
 				r.check(okv, rule+".size-bookkeeping", key+":remaps", p.Pos(f.Pos()), "every success return re-establishes the mapping (mremap)", key+" can return success without re-establishing the mapping for the new size")
 			}
 			// Truncate: the size becomes exactly the argument
@@ -901,7 +933,7 @@ func ruleC17(r *Run, p *Program, rule string) {
 			}
 			found = true
 			hasSize := false
-			for _, s := range sources(c.Call.Args[2]) {
+			for _, s := range sourcesThroughMax(c.Call.Args[2]) {
 				if isFieldLoad(s, "fs.osMMapFile.size") {
 					hasSize = true
 				}
